@@ -22,7 +22,9 @@ MOD, CFG = "ColumnsTrace", "ColumnsTrace.cfg"
 KF_IMAX = ("a numerical column holding the u64 value 9223372036854775807 (= i64::MAX) and a negative i64 is coerced to f64 "
            "instead of i64: the values are not returned exactly (off by one in CompatibleNumericalTypes::accept_value)")
 
-SAFE_SHARED = {"const", "linear", "linear_noise", "blockwise", "small", "gcd", "sorted", "if", "all3"}   # values below 2^53 in magnitude
+SAFE_SHARED = {"const", "linear", "linear_noise", "blockwise", "small", "gcd", "sorted", "if", "all3", "above32", "gcd32", "wide31"}   # values below 2^53 in magnitude
+KF_BELOW_MIN = ("Column::get_docids_for_value_range with a value range entirely below the column's minimum returns the rows holding the minimum "
+                "instead of nothing (bit-packed codec: transform_range_before_linear_transformation saturates both bounds to 0)")
 INDEX_NAME = {"u64": ["u"], "i64": ["i"], "f64": ["f"], "bool": ["b", "j.o.b"], "date": ["d", "j.o.d"], "ip": ["ip"], "str": ["s", "j.s"],
               "bytes": ["y"], "mixed": ["j.a"]}
 
@@ -136,6 +138,8 @@ def describe(ctx, cases):
                 c = bad[0]
                 name = c["key"].split("|")[0]
                 sp = specs.get(name, {})
+                if case.get("below_min"):
+                    return KF_BELOW_MIN, json.dumps({"column": {x: c[x] for x in c if x not in ("off",)}})[:3000]
                 if sp.get("pattern") == "imax_neg":
                     return KF_IMAX, json.dumps({"column": {x: c[x] for x in c if x not in ("off", "flat", "ranges")}, "unknown": e.get("unknown")})[:3000]
                 small = {x: (v if not isinstance(v, list) or len(v) < 60 else v[:60] + ["..."]) for x, v in c.items()}
@@ -200,6 +204,17 @@ def known_finding_run(ctx):
         ctx.cov["kf_imax_reproduced"] = True
 
 
+def known_finding_below_min(ctx):
+    """the recorded defect of range lookups entirely below the minimum still reproduces"""
+    case = {"id": 0, "path": "columnar", "seed": 4, "merge": {"order": "none"}, "below_min": True,
+            "tables": [{"nrows": 12, "cols": [{"name": "x", "kind": "u64", "pattern": "gcd", "card": "full", "present": "all", "density": 0, "expect_type": "i64"}]}]}
+    n_before, kf_before = len(ctx.violations), len(ctx.kf_seen)
+    units, n_ok = run_cases(ctx, [case], "kf_below_min")
+    ctx.cov["kf_below_min_reproduced"] = not (n_ok == 1 and len(ctx.violations) == n_before and len(ctx.kf_seen) == kf_before)
+    if not ctx.cov["kf_below_min_reproduced"]:
+        log("[C08] note: the recorded finding (value range entirely below the minimum) did not reproduce")
+
+
 def selftest(ctx, units):
     u = next((x for x in units if any(e.get("ev") == "read" and "rows" in e and any(len(c.get("flat", [])) > 3 for c in e["cols"]) for e in x)), None)
     if not u:
@@ -221,7 +236,7 @@ def selftest(ctx, units):
                 continue
             e["rows"][0], e["rows"][j] = e["rows"][j], e["rows"][0]
         elif name == "range_lookup_row_dropped":
-            rg = next((r for r in c["ranges"] if r["rows"]), None)
+            rg = next((r for r in c.get("ranges", []) if r["rows"]), None)
             if not rg:
                 continue
             rg["rows"].pop()
@@ -252,6 +267,7 @@ def run(ctx):
     units, n_ok = run_cases(ctx, cases, "columns")
     log(f"[R/T] {len(cases)} cases from {len(gen)} TLC-generated column / merge shapes, {n_ok} accepted; {ctx.cov['columns']}")
     known_finding_run(ctx)
+    known_finding_below_min(ctx)
     selftest(ctx, units)
     ctx.sample({"kind": "case (column shapes from TLC, concretised)", "case": cases[0]})
     e = next((e for u in units for e in u if e.get("ev") == "read" and "rows" in e), None)
